@@ -387,6 +387,9 @@ func (w *World) buildGovParam(v *View, cp CurParams) (*TxSpec, string) {
 	if w.P.HugeFeeMultipliers && w.R.Chance(35) {
 		key = "auth/FeeMultipliers"
 	}
+	if w.P.UnstakingTimeChanges && w.R.Chance(40) {
+		key = "pos/UnstakingTime"
+	}
 	if lc := w.lastACL; lc != nil && lc.h == w.Env.H+1 && w.R.Chance(60) && lc.key != "gov/acl" {
 		// the ownership of this key was (tried to be) handed over earlier in this very block: the former and the new
 		// owner use it right away
